@@ -12,6 +12,8 @@ class Spec(MQSpec):
     prop = 'C04'
     level = 'exploration'
     chunk = 4
+    keep_backbone = True
+    protected_keys = ('stall_at',)
 
     def __init__(self, tier='quick'):
         super().__init__(tier)
